@@ -17,7 +17,7 @@ META = dict(
     level="exploration",
     design_ref="DESIGN.md §5 C37",
     technique="online lock-step reference-model monitor: every operation of a generated history is applied to a real EKO on disk and to a dict model; after every step membership, iteration and approx lookups are compared, values on every read, full content after every close/re-open",
-    level_text="Bounded-exhaustive: ALL histories of length 3 (quick) / 4 (thorough) over 14 symbols (set, set-with-error, get, unload on 3 keys; items(); close+re-open) - prefixes included - plus long random histories (to length 30) over a wider alphabet (NumPy-typed and 1-ulp keys, unload(), del eko.operators, operator() context manager, Inventory access, read-only re-opens). Exhaustive only within those bounds; beyond them exploration.",
+    level_text="Bounded-exhaustive: ALL histories of length 3 (quick) / 4 (thorough) over 14 symbols (set, set-with-error, get, unload on 3 keys; items(); close+re-open) - prefixes included - plus long random histories (to length 30) over a wider alphabet (NumPy-typed and 1-ulp keys, unload(), del eko.operators, operator() context manager, Inventory access, read-only re-opens, sessions abandoned without close). Exhaustive only within those bounds; beyond them exploration.",
     level_note="Trusted base: vlib/oracles/storemodel.py (dict + persisted copy; design decisions: unload never changes the map, a failed lookup never changes the map, approx is |q-k| <= atol + rtol|k| with unique/none/ambiguous). Arrays compared by sha256 of bytes.",
     rule="case = one history (sequence of operations); distinct by its symbol sequence / random seed index; non-trivial = the history stores at least one operator and performs at least one of: unload, overwrite, re-open, read after unload",
     min_nontrivial=300,
@@ -183,6 +183,16 @@ class Session:
                 raise Diverged("C37/del-inventory/raises", f"del eko.operators raised {type(ex).__name__}: {ex}")
             self.flags.add("unload")
             return "del-inventory"
+        if kind == "cycle" and op[1] == "abandon" and m.persisted is not None and not m.readonly:
+            # the session is dropped without close(): nothing of it may reach the archive
+            try:
+                self.eko = self.EKO.edit(self.path)
+                m.reopen(False)
+            except Exception as ex:
+                raise Diverged("C37/reopen-after-abandon/raises", f"re-opening after an abandoned session raised {type(ex).__name__}: {str(ex)[:300]}")
+            self.flags.add("reopen")
+            self.hit("abandoned_sessions")
+            return "reopen-after-abandon"
         if kind == "cycle":
             readonly = len(op) > 1 and op[1] == "read"
             label = "reopen-read" if readonly else "reopen-edit"
@@ -339,8 +349,10 @@ def random_history(rng):
             hist.append(("unload_all",))
         elif r < 0.84:
             hist.append(("empty",))
-        elif r < 0.95:
+        elif r < 0.92:
             hist.append(("cycle", "edit"))
+        elif r < 0.95:
+            hist.append(("cycle", "abandon"))
         else:
             # a read-only interlude: re-open read-only, poke, then back to edit
             hist.append(("cycle", "read"))
